@@ -140,7 +140,8 @@ def gen_primaries(rng, for_l9=False):
     k = rng.below(10)
     if k < 5:
         return list(rng.choice(COLORSPACE_PRIMARIES[:6] if rng.chance(4, 5) else COLORSPACE_PRIMARIES))
-    if k < 7 and for_l9:
+    if k < 7 and (for_l9 or k == 6):
+        # real-device presets are looked up for L9 only; a target display using one is custom (index 255)
         return list(rng.choice(REALDEVICE_PRIMARIES))
     if k < 8:
         # a preset with one coordinate moved by one unit in the last place: must be encoded as custom
